@@ -258,7 +258,7 @@ func genSeq(r *common.Rng, maxOps int) Case {
 func genRace(r *common.Rng) Case {
 	g := &genState{r: r, users: map[string]Key{}}
 	g.pskLen = common.Pick(r, []int{16, 32})
-	c := Case{Kind: "race", PSKLen: g.pskLen, TCP: true, UDP: true, Reps: 8}
+	c := Case{Kind: "race", PSKLen: g.pskLen, TCP: true, UDP: true, Reps: 6}
 	if r.Chance(1, 4) {
 		c.UDP = false
 	}
